@@ -139,11 +139,13 @@ func setupProfile(e *Env, o core.RunOpts) error {
 		}
 		return setupTSS(e, o)
 	case "C13":
-		switch e.Ch.Intn("cfg.c13.profile", 4) {
+		switch e.Ch.Intn("cfg.c13.profile", 5) {
 		case 0, 1:
 			return setupOracle(e, o)
 		case 2:
 			return setupTSS(e, o)
+		case 4:
+			return setupTunnel(e, o) // signing fees paid by tunnel fee payers (monitor C13Tunnel)
 		}
 		return setupTransition(e, o)
 	case "C06", "C07", "C15", "C16":
@@ -388,9 +390,15 @@ func setupTransition(e *Env, o core.RunOpts) error {
 // setupFeeds: voters (delegations + restaked coins), signal votes, validators feeding prices, data requests, module-level locks.
 func setupFeeds(e *Env, o core.RunOpts) error {
 	tokens := drawValTokens(e, 1, 7)
+	pushOver := -1
 	for i := range tokens {
 		if e.Ch.Bool("cfg.feeds.bigstake", 60) {
 			tokens[i] = 9_000_000_000_000_000 // near 2^63 totals
+			if pushOver < 0 && e.Ch.Bool("cfg.feeds.bigstake.edge", 500) {
+				// one validator a million tokens short of 2^63: a small delegation during the run takes it past the signed 64-bit limit
+				tokens[i] = 1<<63 - 1 - 1_000_000
+				pushOver = i
+			}
 		}
 	}
 	op := drawOracleParams(e)
@@ -444,7 +452,7 @@ func setupFeeds(e *Env, o core.RunOpts) error {
 	if o.Prop == "C07" {
 		va.WrapP = e.Ch.Intn("cfg.vote.wrap", 120)
 	}
-	fa := &FeederActor{Lazy: lazy, ByzP: e.Ch.Intn("cfg.feeder.byz", 80), SkewP: e.Ch.Intn("cfg.feeder.skew", 80), Bystander: w.Users[7]}
+	fa := &FeederActor{Lazy: lazy, ByzP: e.Ch.Intn("cfg.feeder.byz", 80), SkewP: e.Ch.Intn("cfg.feeder.skew", 80), Bystander: w.Users[7], PushOver: pushOver}
 	e.Actors = append(e.Actors, oa, sa, va, fa)
 	if e.Ch.Bool("cfg.restake.paramchurn", 300) {
 		gov := &GovActor{}
@@ -545,7 +553,12 @@ func setupTunnel(e *Env, o core.RunOpts) error {
 	if o.Prop == "C11" {
 		e.Actors = append(e.Actors, &SigRequester{Rate: 200 + e.Ch.Intn("cfg.sigreq.rate", 400), MaxOpen: 4, Senders: voters, LimitW: []int{100, 0, 0, 0}, RichContent: true, Signals: signals})
 	}
-	e.Monitors = append(e.Monitors, &C08{}, &C17{}, &C06{}, &C07{}, &C05{}, &C10{}, &C09{WithTSS: true}, &C11{})
+	if e.Ch.Bool("cfg.tunnel.paramchurn", 300) {
+		gov := &GovActor{}
+		e.Shared["gov"] = gov
+		e.Actors = append(e.Actors, gov, &TunnelParamChurn{Rate: 10 + e.Ch.Intn("cfg.tunnel.churnrate", 30)})
+	}
+	e.Monitors = append(e.Monitors, &C08{}, &C17{}, &C06{}, &C07{}, &C05{}, &C10{}, &C09{WithTSS: true}, &C11{}, &C13Tunnel{})
 	e.MaxSteps = e.Ch.Range("cfg.steps", 50, 120)
 	if o.Thorough {
 		e.MaxSteps = e.Ch.Range("cfg.steps", 70, 240)
@@ -661,6 +674,10 @@ func setupRelay(e *Env, o core.RunOpts) error {
 	w.F = faults
 	e.Actors = append(e.Actors, &OracleActor{MaxOpen: 6, ReqRate: 500 + e.Ch.Intn("cfg.relay.reqrate", 400), Scripts: []int{scriptEcho, scriptSimple, scriptNoRet}, NumDS: len(dss), ActivateP: 1000,
 		ReactivateP: 200, PolicyW: []int{60, 20, 10, 0, 0, 0, 10}})
+	if e.Ch.Bool("cfg.relay.valsetchange", 500) {
+		// delegations move voting power: the validator set changes, so a header's validators hash and next-validators hash differ
+		e.Actors = append(e.Actors, &DelegationChurn{Users: w.Users, Rate: 300, Big: true})
+	}
 	e.Monitors = append(e.Monitors, &C12{}, NewC01(), &C09{})
 	e.MaxSteps = e.Ch.Range("cfg.steps", 40, 120)
 	if o.Thorough {
